@@ -126,6 +126,66 @@ func runLift3x(a *args) {
 				_ = we
 			}
 		}
+		// (n) neighbour sequences (see lift40.go): a score must not depend on what was scored just before
+		if prop == "C03" || prop == "C14" {
+			nn := K / 4
+			if nn < 6 {
+				nn = 6
+			}
+			for k := 0; k < nn; k++ {
+				o := randomObj()
+				var b0, t0, e0 float64
+				safely(func() { b0 = o.Score("base"); t0 = o.Score("temporal"); e0 = o.Score("environmental") })
+				for _, m := range metrics {
+					for _, x := range tb.vals[m] {
+						o2 := o.Clone()
+						mustSet(o2, m, x)
+						if prop == "C03" {
+							check(o2, "neighbour scored right after its neighbour")
+							continue
+						}
+						var b1, t1, e1 float64
+						p, _ := safely(func() {
+							o2.Score("base")
+							b1 = o.Score("base")
+							o2.Score("temporal")
+							t1 = o.Score("temporal")
+							o2.Score("environmental")
+							e1 = o.Score("environmental")
+						})
+						col.count("scores repeated after scoring a neighbour", 3)
+						if !p && (b1 != b0 || t1 != t0 || e1 != e0) {
+							col.violate(Violation{Property: prop, Kind: "a score depends on what was scored before", Version: vn,
+								Input: map[string]interface{}{"vector": o.Vector(), "scored_in_between": o2.Vector()}, Expected: []string{fmtF(b0), fmtF(t0), fmtF(e0)}, Observed: []string{fmtF(b1), fmtF(t1), fmtF(e1)}})
+						}
+					}
+				}
+			}
+			if prop == "C14" {
+				continue
+			}
+		}
+		// (x) no environmental metric defined at all, versus each single explicit copy of a base value / default
+		if prop == "C10" || prop == "C03" {
+			for k := 0; k < 6*K; k++ {
+				o := randomObj()
+				for _, m := range []string{"CR", "IR", "AR", "MAV", "MAC", "MPR", "MUI", "MS", "MC", "MI", "MA"} {
+					mustSet(o, m, "X")
+				}
+				check(o, "no environmental metric defined")
+				for m, mm := range tb.modOf {
+					o2 := o.Clone()
+					b, _ := o2.Get(m)
+					mustSet(o2, mm, b)
+					check(o2, "single explicit copy of a base value")
+				}
+				for _, m := range []string{"CR", "IR", "AR"} {
+					o2 := o.Clone()
+					mustSet(o2, m, tb.defaults[m])
+					check(o2, "single explicit default")
+				}
+			}
+		}
 		// (a) every (base, modified) pair of every overridable metric, in K random contexts
 		for m, mm := range tb.modOf {
 			for _, b := range tb.vals[m] {
